@@ -25,6 +25,9 @@ Observation point: `ModeWrapper(<stack with seeded sample wrappers>, mode)[i]`  
                 ... and equal the values the checking interpreter returns after other seeded wrappers of the same classes
                 (other seeds) served the same indices first, tables taken in the opposite order  -> instance-history-dependent:<wrapper>
                 decision probes: a wrapper's own fair random decision recorded in ctx is not constant over 32 indices -> same-decisions:<wrapper>
+                reconfiguration history (30% of the stacks with transform / multi-view / semseg wrappers): the second instance is
+                constructed with decoy transforms and gets the final ones through the public attributes; it must equal the directly
+                constructed reference on every request                                  -> impure:after-reassigning-transform:<wrapper>
                 an in-domain construction / request raising                                               -> *-crash / *-refused
 
 A violating stack is reduced to the seeded layer (and, inside it, to the smallest sub-tree of its transform) that still
@@ -88,6 +91,11 @@ ASSUMPTIONS = [
     "cross-interpreter / instance-history clause: the fresh child interpreters process the chosen specs in one start each (the first "
     "stack of every wrapper family is the first instance of its classes there); the checking interpreter computes the same tables in "
     "the opposite order after wrappers with seeds + 1000 served the same indices",
+    "reconfiguration histories are driven for the families whose transforms are public attributes read at request time on the current "
+    "tree (TransformWrapperBase.transform, KDMultiViewWrapper.transform_configs[k].transform, SemsegTransformWrapper.transforms): the "
+    "second instance is constructed with decoy transforms, the final ones are assigned before the first request, and it must equal the "
+    "directly constructed reference instance. MUGSMultiViewWrapper keeps its pipelines twice (attribute + list) and is not reconfigured; "
+    "n_views of a multi-view config is not changed after construction",
     "seed sensitivity (another seed gives another table) is evidence, never a verdict",
     "which ModeWrapper mode an item is requested through is not part of (data, config, seed, i): the same item of the same index must "
     "agree across modes (ctx is not requested in this comparison)",
@@ -96,12 +104,13 @@ ASSUMPTIONS = [
 ]
 MONITORS = ["reference_tables", "history_observations_compared", "second_instance_observations_compared", "request_form_observations_compared",
             "global_rng_perturbations", "loader_runs", "loader_runs_in_worker_processes", "loader_samples_compared",
-            "stream_pairs_compared", "draw_windows_compared", "decision_windows_checked", "mix_weights_decoded", "index_sensitive_tables", "request_mode_items_compared", "interpreter_tables_compared", "foreign_seed_wrappers_served_first"]
+            "stream_pairs_compared", "draw_windows_compared", "decision_windows_checked", "mix_weights_decoded", "index_sensitive_tables", "request_mode_items_compared", "reconfigured_instances", "interpreter_tables_compared", "foreign_seed_wrappers_served_first"]
 
 STEP_LIMIT = 3_000_000
 WITNESSES_PER_KEY = 4
 LOADER_TIMEOUT_S = 120
 ZERO_SEED_QUOTA = 3
+RECONF_NOTE = " whose wrappers were constructed with decoy transforms and then given the final transforms through their public attributes"
 
 
 # ------------------------------------------------------------------------------------------------ generation
@@ -207,6 +216,8 @@ def gen_cases(run):
         else:
             st = S.gen_stack(rng, flags, family=rng.choice(["xtw", "xtw", "xtw", "xtw2", "mv", "mv", "mix", "semseg", "semseg"]))
         zero_quota(st)
+        if any(l["w"] in S.RECONF and l.get("seed") is not None for l in st["layers"]) and rng.random() < 0.3:
+            st["reconf"] = True
         loaders = rng.choice([1, 2, 2]) if rng.random() < loader_share else 0
         yield _finish_spec(rng, st, loaders)
 
@@ -329,7 +340,11 @@ def evaluate(spec, stats=None, loaders=True, light=False, codes=None):
         if burn:
             np.random.random(burn)
         prog = {}
-        ok, mw = call_real(col, lambda: S.build_stack(spec, prog), crash_key="construct-crash", what=f"constructing the stack (instance {tag})")
+        reconf = bool(spec.get("reconf")) and tag == "B"
+        if reconf:
+            bump("reconfigured_instances")
+        ok, mw = call_real(col, lambda: S.build_stack(spec, prog, reconf=reconf), crash_key="construct-crash",
+                           what=f"constructing the stack (instance {tag}{', transforms assigned through the public attributes after construction' if reconf else ''})")
         if not ok:
             f = crash("construct")
             f["layer"] = prog.get("layer")
@@ -390,14 +405,14 @@ def evaluate(spec, stats=None, loaders=True, light=False, codes=None):
                 return f
             bump("second_instance_observations_compared")
             if canon_value(out) != R[i]:
-                return impure(f"on a second instance built under global seed {g2} (first requests {pre_b})", i)
+                return impure(f"on a second instance built under global seed {g2}{RECONF_NOTE if spec.get('reconf') else ''} (first requests {pre_b})", i)
         for i in seq_b:
             out, f = get(B, i, f"request mw[{i}] (instance B)")
             if f:
                 return f
             bump("second_instance_observations_compared")
             if canon_value(out) != R[i]:
-                return impure(f"on a second instance built under global seed {g2}, requested in the order {seq_b} after {pre_b}", i)
+                return impure(f"on a second instance built under global seed {g2}{RECONF_NOTE if spec.get('reconf') else ''}, requested in the order {seq_b} after {pre_b}", i)
         for kind, arg in forms:
             req = list(arg) if kind == "list" else slice(arg[0], arg[1], arg[2])
             idxs = list(arg) if kind == "list" else list(range(m))[req]
@@ -659,6 +674,14 @@ def _reduce(spec, finding):
 
     def judge(sub):
         return evaluate(sub, loaders=False, light=True)
+
+    if spec.get("reconf") and finding["kind"] == "impure" and not loader_only:
+        plain = dict(spec, reconf=None, loaders=[], probe=None)
+        plain.pop("_trivial", None)
+        if judge(plain) is None:
+            # holds when the second instance is constructed directly: the reconfiguration through the public attribute matters
+            fams = "+".join(sorted({S.wrapper_family(l) for l in layers if l["w"] in S.RECONF and l.get("seed") is not None}))
+            return [(spec, finding, f"after-reassigning-transform:{fams}")]
 
     def descend(layer, tree, mk, cur_spec, cur_finding):
         """mk(subtree) -> solo spec with `subtree` in place of `tree`"""
@@ -933,6 +956,10 @@ def _cover(run, spec):
                     _note(run, "transform_classes_exercised", H.RECIPES[n["recipe"]].cls.__name__)
                 elif n["t"] in H.CONTAINER_CLASSES:
                     _note(run, "transform_classes_exercised", H.CONTAINER_CLASSES[n["t"]].split(":")[1])
+    if spec.get("reconf"):
+        for l in layers:
+            if l["w"] in S.RECONF and l.get("seed") is not None:
+                run.cover("reconfigured", l["w"], l.get("item", ""))
     for lo in spec.get("loaders", []):
         run.cover("loader", lo["workers"], lo["max_batch"], lo["on"])
     if spec.get("probe"):
